@@ -8,7 +8,7 @@ import (
 
 func init() {
 	register("C03", &propInfo{
-		Explanation: "GD: the library's only wrapper around arbitrary predicates (CheckedFuncSolid, 2D and 3D) calls the predicate only after both bound tests; no library function builds a solid with the unchecked FuncSolid; the Contains methods whose membership test is defined outside their box return non-false only under InBounds(receiver, point). UNIT: bound expressions in bounder.go, solid.go, shapes.go, metaball.go, polytope.go and the toolbox parts are dimensionally consistent (a bound is a length). ABSORB: no bound is computed as x.Max(y.Min(x)) / x.Min(y.Max(x)). GD.WARP: a Contains method whose type inherits Min/Max from an embedded object and asks that object about a remapped point tests InBounds(receiver, point) first. BOUNDFOLD: a Min/Max method of a list combinator that asks its members for their bounds in a loop combines them with Coord.Min/Max in that loop. AXISCMP: two different coordinates are compared component by component on the same axis. BOUNDDIR: within one combinator type the operands' lower bounds are always folded with one of Coord.Min/Max and the upper bounds with the other.",
+		Explanation: "GD: the library's only wrapper around arbitrary predicates (CheckedFuncSolid, 2D and 3D) calls the predicate only after both bound tests; no library function builds a solid with the unchecked FuncSolid; the Contains methods whose membership test is defined outside their box return non-false only under InBounds(receiver, point). UNIT: bound expressions in bounder.go, solid.go, shapes.go, metaball.go, polytope.go and the toolbox parts are dimensionally consistent (a bound is a length). ABSORB: no bound is computed as x.Max(y.Min(x)) / x.Min(y.Max(x)). GD.BOX: ForceSolidBounds and CacheSolidBounds never hand their argument back as it came. GD.WARP: a Contains method whose type inherits Min/Max from an embedded object and asks that object about a remapped point tests InBounds(receiver, point) first. BOUNDFOLD: a Min/Max method of a list combinator that asks its members for their bounds in a loop combines them with Coord.Min/Max in that loop. AXISCMP: two different coordinates are compared component by component on the same axis. BOUNDDIR: within one combinator type the operands' lower bounds are always folded with one of Coord.Min/Max and the upper bounds with the other.",
 		Trusted:     append([]string{"the table of Contains methods that need an explicit InBounds guard (checker/gd.go, 10 rows with reasons, confirmed by reading)"}, unitTrusted...),
 		Fixtures:    []string{"g", "u"},
 		Run: func(c *Ctx) {
@@ -16,6 +16,7 @@ func init() {
 			c.floor("GD.INB", 10)
 			c.floor("GD.CHK", 2)
 			c.floor("GD.RAW", 2)
+			c.floor("GD.BOX", 4)
 			c.runWarpGuard("GD.WARP", append(c.libPkgs()[:4:4], c.fixturePkg("g")))
 			c.floor("GD.WARP", 0)
 			pkgs := c.unitPkgs("u")
@@ -58,6 +59,8 @@ func init() {
 			c.floor("CANON", 1)
 		},
 		SelfTest: []Mutation{
+			{Name: "CacheSolidBounds hands back an existing function solid unchecked", File: "model3d/solid.go",
+				Old: "func CacheSolidBounds(s Solid) Solid {\n", New: "func CacheSolidBounds(s Solid) Solid {\n\tif f, ok := s.(*funcSolid); ok {\n\t\treturn f\n\t}\n", Rule: "GD.BOX", Expect: "CacheSolidBounds"},
 			{Name: "ramp answers for a rescaled point under the wrapped solid's box (defect repaired in db8a90e)", File: "toolbox3d/ramp.go",
 				Old: "\tif !model3d.InBounds(r, c) {\n\t\treturn false\n\t}\n\taxis := r.P2.Sub(r.P1)", New: "\taxis := r.P2.Sub(r.P1)", Rule: "GD.WARP", Expect: "Ramp"},
 			{Name: "height map solid checks only z", File: "toolbox3d/height_map.go",
